@@ -155,6 +155,10 @@ class IfWriteHandler(AbstractWriteHandler):
 
     def _if_header_for(self, op: SsbOperation) -> str:
         # TODO: More error checking for parameters would probably be a good idea
+        # (multi-line strings are printed relative to the indent of the statement they are written in)
+        for param in op.params:
+            if hasattr(param, "indent"):
+                param.indent = self.decompiler.indent
         if op.op_code.name == "Branch":
             return f"{op.params[0]} {SsbOperator.EQ.notation} {op.params[1]}"
         if op.op_code.name == "BranchBit":
